@@ -1,6 +1,6 @@
 (* C07 — Every simulation mode returns a complete, correctly labelled result. *)
 From Coq Require Import ZArith List Bool Arith.
-From BS Require Import Base.Arith Model.Dispatch Model.SSA Proofs.DispatchProofs.
+From BS Require Import Base.Arith Model.Queue Model.Dispatch Model.SSA Proofs.DispatchProofs Proofs.ShapeProofs.
 Import ListNotations.
 
 (* Finite domain, enumerated completely (2*2*2*3*2*5*2 = 480 option records): all_opts lists
@@ -20,9 +20,22 @@ Theorem C07_ssa_row_count :
   ssa_simulate A fuel s ts u pos = Done st -> length (ss_rows st) = length ts /\ ss_todo st = [].
 Proof. exact @ssa_row_count. Qed.
 
-(* The shapes of the delay / volume / deterministic results (row count up to division, time axis,
-   column labels, first row) are covered by the exhaustive run over the option lattice and by
-   the stream replays; they are not mechanised (C07_partial). *)
+(* The delay-capable loop: one row per requested time point as well (any queue, stream, fuel, network). *)
+Theorem C07_delay_row_count :
+  forall F (A : Arith F) pi2 (s : sim F) fuel gfuel q ts u pos st,
+  dssa_simulate A pi2 fuel gfuel s q ts u pos = Done st -> length (ds_rows st) = length ts /\ ds_todo st = [].
+Proof. exact @dssa_row_count. Qed.
+(* The volume-aware loop: one volume per row, never more rows than requested times, and every requested time
+   unless the cell divided ("one row per requested time point up to cell division"). *)
+Theorem C07_volume_result_shape :
+  forall F (A : Arith F) (s : sim F) fuel vm V0 ts u pos st,
+  vssa_simulate A fuel s vm V0 ts u pos = Done st ->
+  length (vs_rows st) = length (vs_vols st) /\ (length (vs_rows st) <= length ts)%nat /\
+  (vs_divided st = false -> length (vs_rows st) = length ts).
+Proof. exact @vssa_result_shape. Qed.
+
+(* The deterministic result, the delay + volume simulator, the time axis, the column labels and the first row are covered
+   by the exhaustive run over the option lattice and by the stream replays; not mechanised (C07_partial). *)
 
 Example C07_example_volume_object :
   dispatch (mkOpts true false true TTrue true VObj true) = Run KDelayVolSSA true true.
@@ -32,3 +45,5 @@ Print Assumptions C07_all_opts_complete.
 Print Assumptions C07_no_internal_fault.
 Print Assumptions C07_rejected_iff.
 Print Assumptions C07_ssa_row_count.
+Print Assumptions C07_delay_row_count.
+Print Assumptions C07_volume_result_shape.
